@@ -226,7 +226,11 @@ func runPoolReader(pc *PoolCase, w *TraceWriter, rec *poolRec) {
 			checkLive(w, live)
 			w.Ev("epoch", "why", "release")
 			live = nil
-			r.Release(nil)
+			if (op.N+i)%3 == 1 { // the argument changes nothing about who owns what
+				r.Release(errReleaseArg)
+			} else {
+				r.Release(nil)
+			}
 			companion(2*i + 1)
 		case "next", "peek":
 			var b []byte
